@@ -2,6 +2,7 @@
 import json, jsonschema, glob, sys
 jsonschema.validate(json.load(open('/verif/MANIFEST.json')), json.load(open('/root/.vp/MANIFEST.schema.json')))
 es = json.load(open('/root/.vp/EVIDENCE.schema.json'))
-for f in sorted(glob.glob('/verif/evidence/*.json')):
+claimed={c['property_id'] for c in json.load(open('/verif/MANIFEST.json'))['checks']}
+for f in sorted('/verif/evidence/%s.json'%c for c in claimed):
     jsonschema.validate(json.load(open(f)), es)
-print('manifest and', len(glob.glob('/verif/evidence/*.json')), 'evidence files valid')
+print('manifest and', len(claimed), 'evidence files of claimed checks valid')
